@@ -110,6 +110,39 @@ def probe_id_counter(jr):
             'ids_seen': ids}
 
 
+class _Unencodable:
+    pass
+
+
+def probe_fail_draws(jr, step):
+    """does a send that raises use up the ids it drew?  (ids before / after, from the wire)"""
+    step = step or 1
+
+    def gap(proto, failing):
+        c = jr.JSONRPCConnection(proto)
+        a = wire_ids(c.send_request(jr.Request('m', []))[0])[0]
+        name = _exc_name(lambda: failing(c))
+        b = wire_ids(c.send_request(jr.Request('m', []))[0])[0]
+        return name, (b - a) // step - 1
+    out = {}
+    try:
+        name, g = gap(jr.JSONRPCv2, lambda c: c.send_request(jr.Request('m', [_Unencodable()])))
+        out['single'] = (name, g)
+    except Exception as e:   # noqa
+        out['single'] = ('!' + type(e).__name__, 1)
+    two = lambda bad: jr.Batch([jr.Request('a', [_Unencodable()] if bad else []),   # noqa: E731
+                                jr.Request('b', [])])
+    try:
+        out['batch_v1'] = gap(jr.JSONRPCv1, lambda c: c.send_batch(two(False)))
+    except Exception as e:   # noqa
+        out['batch_v1'] = ('!' + type(e).__name__, 2)
+    try:
+        out['batch_unencodable'] = gap(jr.JSONRPCv2, lambda c: c.send_batch(two(True)))
+    except Exception as e:   # noqa
+        out['batch_unencodable'] = ('!' + type(e).__name__, 2)
+    return out
+
+
 def probe_process_table(jr):
     """[proto][id sample][shape] -> (ok?, recovered id sample index or -1)"""
     table = {}
@@ -290,6 +323,12 @@ def extract(repo):
         # first, so that a counter shared between connections still hands out 0 and 1 here
         facts.update(probe_odd_ids(jr))
         facts.update(probe_id_counter(jr))
+        facts['fail_draws'] = probe_fail_draws(jr, facts['id_step'])
+        fd = facts['fail_draws']
+        # a failed send uses up all of its ids (as in the tree) or none; anything else cannot be
+        # expressed by the model and shows up as a disagreement
+        facts['fail_draws_single'] = fd['single'][1] != 0
+        facts['fail_draws_batch'] = not (fd['batch_v1'][1] == 0 and fd['batch_unencodable'][1] == 0)
         facts['process'] = probe_process_table(jr)
         facts['admit'] = {p: [row[0][0] for row in rows] for p, rows in facts['process'].items()}
         facts['allow_batches'] = probe_allow_batches(jr)
@@ -347,6 +386,10 @@ def render(f):
         '    (0 when the ids seen were not an arithmetic progression of ints) -/\n'
         f'def idStart : Nat := {f["id_start"]}\n'
         f'def idStep : Nat := {f["id_step"]}\n'
+        '/-- a `send_request` / `send_batch` that raises (unencodable argument, protocol without\n'
+        '    batches) still uses up the ids it drew: the next id on the wire skips them -/\n'
+        f'def failDrawsSingle : Bool := {_b(f["fail_draws_single"])}\n'
+        f'def failDrawsBatch : Bool := {_b(f["fail_draws_batch"])}\n'
         '/-- is a valid response with an id of type\n'
         '    int, float, str, null, bool, list, dict (in this order) accepted by `message_to_item` -/\n'
         f'def admitV1 : List Bool := {_row(a["JSONRPCv1"])}\n'
